@@ -39,7 +39,10 @@ Options (None / missing = drawn at random):
   n_axes 1|2, n_masters 2..4 (1 axis), default_pos, corner11, sparse, axis_map, n_glyphs 4..10,
   kinds (segment kinds, subset of line/curve/qcurve), coord_mode "int"|"half"|"dyadic"|"float",
   components, comp_2x2, anchors, info, os2_classes (masters define OS/2 weight/width class),
-  kerning "none"|"aligned"|"ragged", kern_values "int"|"quarter"|"half", kern_conflict,
+  kerning "none"|"aligned"|"ragged", kern_values "int"|"quarter"|"half",
+  kern_conflict (ragged only; True: one master holds (glyph, group) AND (group, glyph) for a pair
+  whose glyph-glyph key exists only in another master - the UFO lookup order is then ambiguous;
+  "split": additionally the masters lacking the glyph-glyph key keep different halves),
   rules 0..2, rule_cross_ref (the alternate of a rule pair has a component of its base glyph;
   default False), missing_glyph, extra_glyph, omit_default_axes, shuffle_sources.
 """
@@ -599,11 +602,22 @@ def family(rng, **opts):
                     ragged_dropped += 1
         if conflict:
             keep = rng.randrange(len(ufos))
-            for mi in range(len(ufos)):
-                if mi != keep:
-                    ufos[mi]["kerning"] = [e for e in ufos[mi]["kerning"]
-                                           if [e[0], e[1]] != conflict["pair"]]
-                    ragged_dropped += 1
+            others = [mi for mi in range(len(ufos)) if mi != keep]
+            for mi in others:
+                ufos[mi]["kerning"] = [e for e in ufos[mi]["kerning"]
+                                       if [e[0], e[1]] != conflict["pair"]]
+                ragged_dropped += 1
+            if opts.get("kern_conflict") == "split" and len(others) >= 2:
+                # the masters that lack the glyph-glyph key cover it through DIFFERENT
+                # half-exceptions: one keeps only (glyph, group), another only (group, glyph)
+                rng.shuffle(others)
+                plan = ["half1", "half2"] + [rng.choice(["half1", "half2", None])
+                                             for _ in others[2:]]
+                for mi, drop in zip(others, plan):
+                    if drop:
+                        ufos[mi]["kerning"] = [e for e in ufos[mi]["kerning"]
+                                               if [e[0], e[1]] != conflict[drop]]
+                conflict["split"] = True
         if not ragged_dropped and kern_keys:
             k = rng.choice(kern_keys)
             mi = rng.randrange(len(ufos))
